@@ -89,8 +89,36 @@ func spec_shaped(rs FuncResults, n int) bool {
 //@ func funcResultsResolver.resultsFromAstAt
 //@   trusted
 //@   assigns *
-//@   preserves pkg/types.funcResultsResolver.
+//@   preserves pkg/types.funcResultsResolver. pkg/types.pkgInfo. golang.org/x/tools/go/packages.
 //@   note ASSUMED frame of the per-slot resolver (not verified: go/ast traversal through ast.Inspect callbacks): it never stores into a funcResultsResolver
+
+//@ func funcResultsResolver.resultsAtReturnOrAssignment
+//@   trusted
+//@   assigns *
+//@   preserves pkg/types.funcResultsResolver. pkg/types.pkgInfo. golang.org/x/tools/go/packages.
+//@ func funcResultsResolver.resultsAt
+//@   trusted
+//@   assigns *
+//@   preserves pkg/types.funcResultsResolver. pkg/types.pkgInfo. golang.org/x/tools/go/packages.
+//@   note ASSUMED frames (like resultsFromAstAt): the mutually recursive resolver iterators never store into a resolver, a pkgInfo or the loaded go/packages records
+
+//@ func funcResultsResolver.callExprResultAt
+//@   props C14
+//@   requires r != nil && r.pkgInfo != nil && r.Package != nil && r.Package.TypesInfo != nil && callExpr != nil
+//@   assigns *
+//@   preserves pkg/types.funcResultsResolver. pkg/types.pkgInfo. golang.org/x/tools/go/packages.
+//@   lit 1 nopanic
+//@   lit 1 requires r != nil && r.pkgInfo != nil && r.Package != nil && r.Package.TypesInfo != nil && callExpr != nil
+//@   lit 1 assume forall x *ast.FuncLit :: x != nil ==> x.Type != nil
+//@   lit 1 assume forall t *types.Tuple, i int :: 0 <= i && i < t.Len() ==> t.At(i) != nil && t.At(i).Type() != nil
+//@   note (assume) go/ast: a function literal has a Type; go/types: a variable (tuple element) has a type
+//@   loop 1 invariant !stopped && 0 <= retAt && r != nil && r.pkgInfo != nil && r.Package != nil && r.Package.TypesInfo != nil
+//@   loop 2 invariant !stopped && r != nil && r.pkgInfo != nil && r.Package != nil && r.Package.TypesInfo != nil
+//@   loop 3 invariant !stopped && r != nil && r.pkgInfo != nil && r.Package != nil && r.Package.TypesInfo != nil
+//@   loop 4 invariant !stopped && 0 <= inlineRetAt && r != nil && r.pkgInfo != nil && r.Package != nil && r.Package.TypesInfo != nil
+//@   loop 5 invariant !stopped && r != nil && r.pkgInfo != nil && r.Package != nil && r.Package.TypesInfo != nil
+//@   loop 6 invariant !stopped && r != nil && r.pkgInfo != nil && r.Package != nil && r.Package.TypesInfo != nil
+//@   note safety sweep of the call-expression resolver: every index into a result / parameter tuple is within that tuple (the closure's own tuple for the closure's results); no nil dereference; yield is never called after it returned false
 
 //@ func funcResultsResolver.resolverFor
 //@   props C14
